@@ -217,7 +217,7 @@ def shrink(ctx, prop_lc, case, still_bad, rounds=40):
 # ------------------------------------------------------------------------------ main flow
 
 def history_flow(ctx, prop_lc, module, theorems, matchers, rule, stats_of, nontrivial, assumptions, trusted,
-                 extra_cmp=None, extra_gen=(), replay_cases=None, workers=4):
+                 extra_cmp=None, extra_gen=(), replay_cases=None, workers=4, post_cases=None):
     ctx.assumptions += assumptions
     with common.Lock():
         common.build_tools(ctx)
@@ -272,6 +272,8 @@ def history_flow(ctx, prop_lc, module, theorems, matchers, rule, stats_of, nontr
         "impl_vs_spec_disagreements": len(spec_bad),
         "impl_vs_model_disagreements": len(corr_bad) + len([b for b in spec_bad if b[5] is not None]),
     })
+    if post_cases is not None:
+        post_cases(ctx)  # end of the generated-cases phase: further streams of cases (checks/universe.py)
     ctx.obligation("correspondence: implementation = model on every transaction of every generated history "
                    "(result enum, whole-database dump bucket by bucket, index reads, listener log)",
                    not corr_bad and not [b for b in spec_bad if b[5] is not None],
